@@ -80,7 +80,7 @@ type archetypeData struct {
 }
 
 // Init initializes an archetype
-func (a *archetype) Init(node *archNode, data *archetypeData, index int32, forStorage bool, layouts uint8, relation Entity) {
+func (a *archetype) Init(node *archNode, data *archetypeData, index int32, forStorage bool, layouts uint16, relation Entity) {
 	if !node.IsActive {
 		node.IsActive = true
 	}
@@ -246,7 +246,7 @@ func (a *archetype) Activate(target Entity, index int32) {
 	a.RelationTarget = target
 }
 
-func (a *archetype) ExtendLayouts(count uint8) {
+func (a *archetype) ExtendLayouts(count uint16) {
 	if len(a.layouts) >= int(count) {
 		return
 	}
